@@ -190,6 +190,13 @@ def run_property(V, prop, tier, seed, meta):
         print("  signature=%s (%d artefacts) :: %s" % (sig, n, (re.findall(r"(?:ERROR|runtime error|Assertion|GMP-GUARD|VF-)[^\n]*", err) or [""])[0][:300]))
         print("VIOLATION property=%s replay=%s" % (prop, dst))
     sys.stdout.flush()
+    dead = [c["group"] for c in camps if c["execs"] == 0]
+    if dead and not violations:
+        # a campaign without a single execution explored nothing: the fuzz binary died while it built its seeds / world
+        for g in dead:
+            try: print("HARNESS-ERROR: campaign '%s' executed nothing; tail of its log:\n%s" % (g, open(os.path.join(work, g, "fuzz.log"), errors="replace").read()[-1500:]))
+            except Exception: print("HARNESS-ERROR: campaign '%s' executed nothing" % g)
+        sys.stdout.flush(); return 2
     if not os.environ.get("VERIF_KEEP_WORK"): shutil.rmtree(work, ignore_errors=True)
     return 1 if violations else 0
 
